@@ -187,8 +187,14 @@ async fn server_events(seed: u64, n: usize, trace: &mut dyn io::Write) {
         handler.upsert_mut(Record::from_rdata(origin.clone(), 3600, RData::NS(NS(Name::from_str("ns.example.").unwrap()))), 1);
         let big = Name::from_str("big.example.").unwrap();
         let txt = rng.random_bool(0.5);
+        // a record the zone can hold but no encoder can write (one <character-string> of more than 255
+        // octets): the response fails to encode for a reason other than size and the server falls back to
+        // a bare SERVFAIL -- which is a message like any other
+        let unencodable_at = if txt && rng.random_bool(0.3) { rng.random_range(0..nrec) } else { usize::MAX };
         for i in 0..nrec {
-            let rd = if txt {
+            let rd = if txt && i == unencodable_at {
+                RData::TXT(TXT::new(vec!["q".repeat(300)]))
+            } else if txt {
                 RData::TXT(TXT::new(vec![format!("record-{i}-{}", "p".repeat(rng.random_range(0..60)))]))
             } else {
                 RData::A(A::new(10, 1, (i >> 8) as u8, i as u8))
@@ -245,7 +251,7 @@ async fn server_events(seed: u64, n: usize, trace: &mut dyn io::Write) {
                 "{}",
                 json!({"ev":"srv","case":format!("srv-s{seed}-{case}"),"proto": if proto == Protocol::Udp {"udp"} else {"tcp"},
                     "adv":adv_seen,"replies":replies.len(),"len":len,"decoded":decoded,"leftover":leftover,"tc":tc,
-                    "answers":an,"zone_records":nrec,"do":dnssec_ok})
+                    "answers":an,"zone_records":nrec,"do":dnssec_ok,"unencodable":unencodable_at != usize::MAX})
             )
             .unwrap();
         }
